@@ -219,6 +219,7 @@ func check(id, tier string, seed int64, workers int, verbose bool, only string, 
 	var outs []runOut
 	totalPaths, totalDecisions, totalQueries := int64(0), int64(0), int64(0)
 	ifConverted, ifBailed := int64(0), int64(0)
+	solverRetries := int64(0)
 	var solverTime time.Duration
 	validated := 0
 	diffChecked := 0
@@ -301,6 +302,7 @@ func check(id, tier string, seed int64, workers int, verbose bool, only string, 
 		totalQueries += res.Queries
 		ifConverted += res.IfConverted
 		ifBailed += res.IfBailed
+		solverRetries += res.SolverRetries
 		solverTime += res.SolverTime
 		if len(res.Diffs) > 0 {
 			n, bad := solverDiff(filepath.Join(workDir, r.Name), res.Diffs)
@@ -537,6 +539,7 @@ func check(id, tier string, seed int64, workers int, verbose bool, only string, 
 			"solver":                              "z3 4.8.12 (QF_BV, incremental)",
 			"queries_rechecked_by_z3new_and_cvc5": diffChecked,
 			"branches_if_converted":               ifConverted,
+			"paths_rerun_after_solver_trouble":    solverRetries,
 			"if_conversions_abandoned":            ifBailed,
 			"assert_and_cover_reach":              reach,
 			"outside_claim":                       sp.OutsideClaim,
